@@ -96,12 +96,16 @@ class ValidateVariableNamesVisitor(Visitor.DefaultVisitor):
             forStatement.AcceptVisitor(self, ctx)
 
     def v_IfStatement(self, ifStatement, ctx=None):
-        ctx = self.Context(ctx)
-
+        # The two branches are disjoint scopes: a variable declared directly
+        # in one of them ('if (c) int x = 1; else ...') is not visible in the
+        # other one
         with Errors.CompileExceptionToErrorHandler(
             self.errorHandler, self.__onError
         ):
-            ifStatement.AcceptVisitor(self, ctx)
+            self.v_Visit(ifStatement.GetCondition(), self.Context(ctx))
+            self.v_Visit(ifStatement.GetTruePath(), self.Context(ctx))
+            if ifStatement.HasElsePath():
+                self.v_Visit(ifStatement.GetElsePath(), self.Context(ctx))
 
     def v_VariableDeclaration(self, decl, ctx):
         ctx.Add(decl.GetName(), decl.GetLocation())
